@@ -8,7 +8,7 @@ HOOK_COMMITS = ["c290b2b"]
 CLAIMED = {
     "C01": (
         "Explicit-state exploration of the real SolarDay/JulianDay code in lock-step with a day-counting odometer of the civil calendar: "
-        "all 3,652,061 dates x 34 step sizes x every observer (to/from day count at 3 fractions, next, subtract, order, day-of-year) and all "
+        "all 3,652,061 dates x 100 step sizes (every n in 1..40 and the month/year/century sized ones, both signs) x every observer (to/from day count at 3 fractions, next, subtract, order, day-of-year) and all "
         "4.6M candidate (year,month,day) triples for acceptance, plus year/month lengths and leap flags of every year. The space is finite and is "
         "enumerated completely in both tiers, so any constant/threshold/leap-rule slip that changes one date is seen.",
         "Trusted: the odometer reference model (cross-checked at start-up against integer closed-form JDN formulas) and f64 determinism on one machine. Steps whose result leaves 0001..9999 are outside the claim.",
@@ -105,7 +105,7 @@ CLAIMED = {
         "explicit-state enumeration of an instant lattice x step alphabet against an instant-ordinal model",
         "DESIGN.md 2/C12"),
     "C10": (
-        "Three explorers. (1) Explicit-state BFS over the real process-wide memo: state = canonical memo snapshot + poison flags (read through the verif hooks), transition = one request of an alphabet built to collide under every plausible keying plus refused requests; run to a fixpoint on the core alphabet (quick 256 states / thorough 4096) and to depth 2/3 on the full alphabet incl. walkers and the provider locks; every answer must equal the cold answer and the cache-free constructor. (2) Value-level lazy fields: every sequence of <= 3 observers on LunarDay/LunarHour values vs a fresh value. (3) loom (DPOR) over the repository's own source files compiled against loom's Mutex/lazy_static: 2-4 threads x 1-3 requests on colliding keys, nested provider->memo locks and Err-refusals, preemption bounds 0,1,2,(3), unbounded for the small harnesses; every complete schedule's answers must equal the cold answers; loom reports deadlocks.",
+        "Four explorers. (1) Explicit-state BFS over the real process-wide memo: state = canonical memo snapshot + poison flags (read through the verif hooks), transition = one request of an alphabet built to collide under every plausible keying plus refused requests; run to a fixpoint on the core alphabet (quick 256 states / thorough 4096) and to depth 2/3 on the full alphabet incl. walkers and the provider locks; every answer must equal the cold answer and the cache-free constructor. (2) Value-level lazy fields: every sequence of <= 3 observers on LunarDay/LunarHour values vs a fresh value. (3) generic histories: 576 / 3,200 (date, observer) requests on a collision-prone grid, cold answer of each from its own fresh OS process, then one in-process history containing every ordered pair adjacently. (4) loom (DPOR) over the repository's own source files compiled against loom's Mutex/lazy_static: 2-4 threads x 1-3 requests on colliding keys, nested provider->memo locks and Err-refusals, preemption bounds 0,1,2,(3), unbounded for the small harnesses; every complete schedule's answers must equal the cold answers; loom reports deadlocks.",
         "The '16 OS threads' clause is replaced by exhaustive loom schedules of small harnesses (a free-running stress run would be sampling). loom cannot unwind through a held loom MutexGuard, so panicking refusals are decided by the sequential explorer on std's Mutex (which has poisoning); data races on the !Sync lazy fields are excluded by the compiler (no unsafe).",
         "explicit-state BFS over memo states against cold answers + loom bounded-preemption schedule exploration of the real source",
         "DESIGN.md 2/C10"),
